@@ -146,8 +146,10 @@ REGEX_ITEMS = [i for i, it in enumerate(universe.corpus()) if "input.regex" in i
 
 @st.composite
 def obj(draw):
-    k = draw(st.integers(0, 10))
-    if k == 10:
+    k = draw(st.integers(0, 11))
+    if k == 11:
+        src = draw(c14.kw_source())
+    elif k == 10:
         # the corpus scripts with a Hive RegexSerDe "input.regex" property: their value travels through parser-object state
         src = {"t": "corpus", "item": draw(st.sampled_from(REGEX_ITEMS))}
     elif k < 7:
@@ -193,7 +195,8 @@ FIXED_B = {"src": {"t": "gen", "blocks": [_tbl('"B"', '"y"'), {"k": "raw", "c": 
 class C15(Prop):
     id = "C15"
     rule = ("case = (ops) sequential interleaving of construct(i) / run(i, args) over 2..4 parser objects (1..2 runs each) with "
-            "different texts (generated scripts of every kind with rejected statements, or corpus scripts incl. the RegexSerDe ones), "
+            "different texts (generated scripts of every kind with rejected statements, corpus scripts incl. the RegexSerDe ones, or "
+            "statements with keyword-shaped names in 41 positions), "
             "normalize_names and silent settings and run arguments; or (sched) 2..3 objects whose `construct; run` execute in "
             "threads under the deterministic scheduler with a drawn schedule (yield points: after ply.lex.lex, after ply.yacc.yacc, "
             "before every LRParser.parse = per statement); all 252 interleavings of a fixed two-object pair are enumerated in every "
